@@ -60,6 +60,7 @@ func cmdBt(args []string) {
 	out := fs.String("out", "-", "report path")
 	corpus := fs.String("corpus", "", "directory of saved programs (JSON) to run first")
 	replay := fs.String("replay", "", "run only this saved program / replay file")
+	judgeRandom := fs.Int("judge-random", 0, "random chunk streams given to both decoders after the run")
 	fs.Parse(args)
 
 	prof, ok := bt.Profiles[*scenario]
@@ -102,6 +103,11 @@ func cmdBt(args []string) {
 	}
 	rep := core.RunPrograms("bt/"+*scenario, *seed, progs, bt.Engines(*engines), bt.Accept)
 	rep.Exhaustive = exhaustive
+	if *replay == "" {
+		bt.RunJudges(rep, *seed, *judgeRandom)
+	} else {
+		bt.RunJudges(rep, *seed, 0)
+	}
 	if err := rep.Write(*out); err != nil {
 		fmt.Fprintln(os.Stderr, err)
 		os.Exit(2)
